@@ -2876,8 +2876,13 @@ pub fn freeze(env: &mut FreezeEnv, expr: &LocExpr) -> NRes<LocExpr> {
                         .flat_map(|x| x.collect_identifiers(false /* declared_only */))
                         .collect::<HashSet<String>>(),
                 );
+                // defaults and annotations inside the parameter patterns have free variables too
+                let params = params
+                    .iter()
+                    .map(|p| box_freeze_lvalue(&mut env2, p))
+                    .collect::<NRes<Vec<Box<Lvalue>>>>()?;
                 Ok(Expr::Lambda(
-                    params.clone(),
+                    Rc::new(params),
                     Rc::new(freeze(&mut env2, body)?),
                 ))
             }
